@@ -70,7 +70,8 @@ def run_c20(ctx):
         leaked = [h for h in hit_ids if int(h.split(":")[1]) != control]
         if leaked:
             names = sorted({"%s in %s" % (pats[int(h.split(":")[1])][0], h.split(":")[0]) for h in leaked})
-            ctx.violation("property", "secret material emitted at log level %d: %s" % (level, ", ".join(names)), rep); continue
+            where = "secret material emitted at log level %d" % level if level >= 0 else "the panic message of a construction refused for a wrong-length seed prints it"
+            ctx.violation("property", "%s: %s" % (where, ", ".join(names)), rep); continue
         if level == -1:
             # wrong-length seed: the control is the panic record itself
             if ("log:%d" % control) not in hit_ids:
